@@ -10,6 +10,8 @@ package maxp
 //@   requires r != nil
 //@   let b = old(rpos(r)); d = file(r)
 //@   ensures faults(r) > old(faults(r)) ==> err != nil
+//@   ensures reliable(r) ==> faults(r) == old(faults(r))
+//@   ensures faults(r) == old(faults(r)) && b >= 0 && be16(d, b + 4) >= 1 && ((be32(d, b) == 20480 && b + 6 <= fsize(r)) || (be32(d, b) == 65536 && b + 32 <= fsize(r))) ==> err == nil   // a complete table is accepted
 //@   ensures err == nil ==> info != nil && fresh(info) && info.NumGlyphs == be16(d, b + 4) && info.NumGlyphs >= 1
 //@   ensures err == nil ==> (be32(d, b) == 20480 || be32(d, b) == 65536) && (info.TTF == nil) == (be32(d, b) == 20480)
 //@   ensures err == nil && info.TTF != nil ==> info.TTF.MaxPoints == be16(d, b + 6) && info.TTF.MaxContours == be16(d, b + 8) && info.TTF.MaxCompositePoints == be16(d, b + 10) && info.TTF.MaxCompositeContours == be16(d, b + 12) && info.TTF.MaxZones == be16(d, b + 14) && info.TTF.MaxTwilightPoints == be16(d, b + 16) && info.TTF.MaxStorage == be16(d, b + 18)
@@ -23,3 +25,11 @@ package maxp
 //@   ensures info.TTF != nil ==> be16(res, 6) == info.TTF.MaxPoints && be16(res, 8) == info.TTF.MaxContours && be16(res, 10) == info.TTF.MaxCompositePoints && be16(res, 12) == info.TTF.MaxCompositeContours && be16(res, 14) == info.TTF.MaxZones && be16(res, 16) == info.TTF.MaxTwilightPoints && be16(res, 18) == info.TTF.MaxStorage
 //@   ensures info.TTF != nil ==> be16(res, 20) == info.TTF.MaxFunctionDefs && be16(res, 22) == info.TTF.MaxInstructionDefs && be16(res, 24) == info.TTF.MaxStackElements && be16(res, 26) == info.TTF.MaxSizeOfInstructions && be16(res, 28) == info.TTF.MaxComponentElements && be16(res, 30) == info.TTF.MaxComponentDepth
 //@   modifies nothing
+
+// Round trip (lemma over the contracts of Encode and Read): the glyph count
+// and, for TrueType fonts, all thirteen maxima come back.
+//@ func verifRoundTrip(info *Info) (res *Info, err error)   props: C12 C01
+//@   requires info != nil && 1 <= info.NumGlyphs && info.NumGlyphs <= 65535
+//@   ensures err == nil && res != nil && res.NumGlyphs == info.NumGlyphs && (res.TTF == nil) == (info.TTF == nil)
+//@   ensures info.TTF != nil ==> res.TTF.MaxPoints == info.TTF.MaxPoints && res.TTF.MaxContours == info.TTF.MaxContours && res.TTF.MaxCompositePoints == info.TTF.MaxCompositePoints && res.TTF.MaxCompositeContours == info.TTF.MaxCompositeContours && res.TTF.MaxZones == info.TTF.MaxZones && res.TTF.MaxTwilightPoints == info.TTF.MaxTwilightPoints && res.TTF.MaxStorage == info.TTF.MaxStorage
+//@   ensures info.TTF != nil ==> res.TTF.MaxFunctionDefs == info.TTF.MaxFunctionDefs && res.TTF.MaxInstructionDefs == info.TTF.MaxInstructionDefs && res.TTF.MaxStackElements == info.TTF.MaxStackElements && res.TTF.MaxSizeOfInstructions == info.TTF.MaxSizeOfInstructions && res.TTF.MaxComponentElements == info.TTF.MaxComponentElements && res.TTF.MaxComponentDepth == info.TTF.MaxComponentDepth
